@@ -1,6 +1,7 @@
 import SkgVerif.Lemmas.CacheMachine
 import SkgVerif.Gen.Tables
 import SkgVerif.Gen.Source
+import SkgVerif.Props.Transcribed.C06
 /-!
 # C06 — changing parameters in place is equivalent to building a fresh variogram
 
